@@ -62,7 +62,8 @@ def run_neutral(props: List[str], prog: Program, corpus: bool = True) -> Dict[st
     base = {}
     for p, mod in mods.items():
         ck = Check(p, 'quick')
-        mod.run(ck, prog)
+        from .props import run_check
+        run_check(mod, ck, prog)
         base[p] = {f.key for f in ck.findings}
     res: Dict[str, Any] = {'variants': 0, 'silent': [], 'alarms': {}, 'skipped': []}
     names, jobs = [], []
